@@ -1,7 +1,10 @@
 """Placements of an unseeded sampling site inside JAX control flow / transformations (C14)."""
 import itertools
 
-CONSTRUCTS = ["jit", "scan", "while", "fori", "fori_dyn", "cond", "switch", "grad", "vmap_b", "vmap_u", "mvmap"]
+CONSTRUCTS = ["jit", "scan", "while", "fori", "fori_dyn", "cond", "switch", "grad", "vmap_b", "vmap_u", "mvmap", "checkpoint", "custom_jvp"]
+# opaque higher-order constructs: JAX keeps the wrapped function as a sub-jaxpr of ONE equation (remat / custom_jvp_call /
+# custom_vjp_call) which it evaluates eagerly without compiling; all three are the Lean construct `C.opaque`
+OPAQUE = {"checkpoint", "custom_jvp", "custom_vjp"}
 COMPILING = {"jit", "scan", "while", "fori", "fori_dyn", "cond", "switch"}
 
 
@@ -60,6 +63,14 @@ def wrap(G, c, g):
         return lambda x: _lanes(G.modular_vmap(lambda _: g(x), in_axes=(0,))(jnp.zeros(2)))
     if c == "checkpoint":
         return jax.checkpoint(g)
+    if c == "custom_jvp":
+        f = jax.custom_jvp(g)
+        f.defjvp(lambda primals, tangents: jax.jvp(g, primals, tangents))     # the rule differentiates g itself
+        return f
+    if c == "custom_vjp":
+        f = jax.custom_vjp(g)
+        f.defvjp(lambda x: jax.vjp(g, x), lambda res, ct: res(ct))
+        return f
     raise ValueError(c)
 
 
@@ -84,17 +95,19 @@ def classify(G, placement, seeded, kind="plain"):
             a = float(h(jr.key(1), x))
             b = float(h(jr.key(1), x))
             c = float(h(jr.key(2), x))
-            try:
-                d = float(jax.jit(h)(jr.key(1), x))
-            except Exception:
-                return "seeded-jit-differs"      # eager seeded call returned a value, the compiled one raises
             if math.isnan(a):
                 return "replicated"
             if a != b:
                 return "seeded-not-reproducible"
+            if a == c:
+                return "key-ignored"
+            try:
+                d = float(jax.jit(h)(jr.key(1), x))
+            except Exception:
+                return "seeded-jit-differs"      # eager seeded call returned a value, the compiled one raises
             if abs(a - d) > 1e-6:
                 return "seeded-jit-differs"
-            return "key-function" if a != c else "key-ignored"
+            return "key-function"
         a = float(f(x))
         b = float(f(x))
         if any(c in COMPILING for c in placement):
